@@ -330,6 +330,13 @@ MC_KEYS = [{"module": "MC_Keys.tla", "cfg": "MC_KeysQ.cfg", "timeout": 600},
 MC_LIFE = [{"module": "MC_Lifecycle.tla", "cfg": "MC_LifecycleQ.cfg", "timeout": 900},
            {"module": "MC_Lifecycle.tla", "cfg": "MC_LifecycleT.cfg", "timeout": 3000, "tier": "thorough"},
            {"module": "MC_Lifecycle.tla", "cfg": "MC_LifecycleT3.cfg", "timeout": 3000, "tier": "thorough"}]
+MC_SLASH = [{"module": "MC_Slash.tla", "cfg": "MC_SlashQ.cfg", "timeout": 600},
+            {"module": "MC_Slash.tla", "cfg": "MC_SlashT.cfg", "timeout": 3000, "tier": "thorough"}]
+MC_HS = [{"module": "MC_Handshake.tla", "cfg": "MC_HandshakeQ.cfg", "timeout": 600},
+         {"module": "MC_Handshake.tla", "cfg": "MC_HandshakeT.cfg", "timeout": 3000, "tier": "thorough"}]
+MC_REW = [{"module": "MC_Rewards.tla", "cfg": "MC_RewardsQ.cfg", "timeout": 600},
+          {"module": "MC_Rewards.tla", "cfg": "MC_RewardsF.cfg", "timeout": 600},
+          {"module": "MC_Rewards.tla", "cfg": "MC_RewardsT.cfg", "timeout": 3000, "tier": "thorough"}]
 MC_ELIG = [{"module": "MC_Shaping.tla", "cfg": "MC_ShapingEligQ.cfg", "timeout": 900},
            {"module": "MC_Shaping.tla", "cfg": "MC_ShapingEligT.cfg", "timeout": 3000, "tier": "thorough"}]
 MC_CAP = [{"module": "MC_Shaping.tla", "cfg": "MC_ShapingCapQ.cfg", "timeout": 900},
@@ -392,11 +399,11 @@ PROPS = {
             "properties": ["C06_Free", "C08_Outcome"], "classify": cls_c06,
             "rule": "end-blocks by number of keys scheduled for pruning, assignments by phase, slash packets by kind of key",
             "required_classes": {"quick": ["assign_on_launched", "prune_entries_1"]}, "assumptions": []},
-    "C08": {"level": "model_checking", "mc": [], "corpora": [RANDOM, SCRIPTED], "invariants": ["C08_Outstanding"],
+    "C08": {"level": "model_checking", "mc": MC_SLASH, "corpora": [RANDOM, SCRIPTED], "invariants": ["C08_Outstanding"],
             "properties": ["C08_Outcome", "C08_Params", "C08_AckCarried", "C08_AckOnlyThere", "C08_FlagCleared"], "classify": cls_c08,
             "rule": "slash packets received by the provider by (infraction, acknowledgement), VSC packets carrying slash acks, consumer blocks with outstanding flags / pending slash packets",
             "required_classes": {"quick": ["slash_downtime_handled", "consumer_slash_pending"]}, "assumptions": []},
-    "C09": {"level": "model_checking", "mc": [], "corpora": [RANDOM, SCRIPTED], "invariants": ["C09_Window"],
+    "C09": {"level": "model_checking", "mc": MC_SLASH, "corpora": [RANDOM, SCRIPTED], "invariants": ["C09_Window"],
             "properties": ["C08_Outcome", "C09_MeterLeAllowance", "C09_OncePerPeriod", "C09_Standby", "C09_HeadStays", "C09_QueueFifo"], "classify": cls_c09,
             "rule": "as C08 plus provider begin-blocks by meter state and consumer send steps by slash-record state",
             "required_classes": {"quick": ["slash_downtime_handled", "meter_full", "send_waiting"]}, "assumptions": []},
@@ -408,7 +415,7 @@ PROPS = {
             "properties": ["C11_NoUpdates", "C11_Stops", "C11_RemoveWhenDue", "C11_Residue"], "classify": cls_c11,
             "rule": "stops by cause, removals by outcome, blocks with stopped consumers present",
             "required_classes": {"quick": ["PRemoveOK", "stopped_present"]}, "assumptions": []},
-    "C13": {"level": "model_checking", "mc": [], "corpora": [RANDOM, SCRIPTED, FAULTS], "invariants": [],
+    "C13": {"level": "model_checking", "mc": MC_HS + MC_VSCFLOW, "corpora": [RANDOM, SCRIPTED, FAULTS], "invariants": [],
             "properties": ["C13_Frame", "C13_FrameOthers"], "classify": cls_c13,
             "rule": "per-consumer operations executed while at least one other consumer exists, by operation and number of consumers",
             "required_classes": {"quick": ["PQueueVSC_with_2_consumers", "Tx:AssignKey_with_2_consumers"]}, "assumptions": []},
@@ -416,13 +423,13 @@ PROPS = {
             "properties": ["C14_Owner", "C14_Create", "C14_Authority", "C14_Validator", "C14_RejectedUnchanged"], "classify": cls_c14,
             "rule": "provider messages by (type, kind of sender, outcome)",
             "required_classes": {"quick": ["UpdateConsumer_user_rej", "UpdateConsumer_gov_ok", "OptIn_wrongsigner_rej", "UpdateParams_user_rej", "UpdateParams_gov_ok"]}, "assumptions": []},
-    "C16": {"level": "model_checking", "mc": [], "corpora": [REWARDS], "invariants": ["C16_Solvent"],
+    "C16": {"level": "model_checking", "mc": MC_REW, "corpora": [REWARDS], "invariants": ["C16_Solvent"],
             "properties": ["C16_Split", "C16_Transmit", "C16_Credit", "C16_OnlyThere", "C16_Payout", "C19_AllocateRollback"], "classify": cls_c16,
             "rule": "consumer reward steps by redistribution fraction, blocks by number of reward transfers, reward receipts, allocations by outcome and set size, fee injections by denom",
             "required_classes": {"quick": ["transmit_1", "reward_recv_ok", "PAllocateOK_members_2", "PAllocateFail_members_2", "fees_photon", "split_frac_7500", "split_frac_0"]},
             "assumptions": ["amounts below 2^31 (TLC integers); sub-unit Dec dust (at most one base unit per participant and allocation) is not flagged",
                             "reward denoms are enabled on the consumer through its own governance authority (the provider-made genesis starts with none)"]},
-    "C17": {"level": "model_checking", "mc": [], "corpora": [SCRIPTED, RANDOM],
+    "C17": {"level": "model_checking", "mc": MC_HS, "corpora": [SCRIPTED, RANDOM],
             "invariants": ["C17_ClientInjective", "C17_ChannelInjective", "C17_Attribution"],
             "properties": ["C17_Try", "C17_Confirm", "C17_InitAck", "C17_BindingsOnlyThere", "C17_ConsumerInit", "C17_FirstVSC"], "classify": cls_c17,
             "rule": "channel handshake steps by (chain, step, deviation, outcome), launches by kind of client binding, validator-set packets received",
